@@ -148,6 +148,18 @@ def handle (cmd : String) (args : List String) : Option String :=
             showCoverage t.cov ++ " ; " ++ showClassDef t.classDef1 ++ " ; " ++
               joinNats (t.rows.map (fun r => r.headD 0)))))
     | _, _ => none
+  | "pairs.build", some [rules] =>
+    -- `insert_pair` for every rule `(g1, g2, value-format key, rule id)` in order, then
+    -- `GlyphPairPosBuilder::build`: the format 1 subtables with their pair sets `(g2, rule id)`
+    let rec quads : List Nat → Option (List ((Nat × Nat) × (Nat × Nat)))
+      | [] => some []
+      | a :: b :: c :: d :: rest => (quads rest).map (((a, b), (c, d)) :: ·)
+      | _ => none
+    (quads rules).map (fun rs =>
+      let ts := buildGlyphPairs (·.1) (GlyphPairs.ofRules rs)
+      if ts.isEmpty then "-" else
+      " | ".intercalate (ts.map (fun t => showCoverage t.cov ++ " ; " ++
+        " , ".intercalate (t.pairSets.map (fun ps => joinNats (ps.flatMap (fun p => [p.1, p.2.2])))))))
   | "ppf2.devs", some [ctbl, cdtbl, [k2], pts, devIds, flags] =>
     -- the split loop of `split_pair_pos_format_2` with the device-offset bookkeeping of
     -- `split_off_ppf2` / `copy_value_rec` at the real run's split points: cell `n` (row-major) has
